@@ -184,6 +184,14 @@ class Lexer:
 
     _coding_re = re.compile(r"#.*coding[:=]\s*([-\w.]+).*\r?\n")
 
+    @staticmethod
+    def _names_utf8(encoding):
+        # UTF-8, utf8, utf_8 ... all name the codec the BOM announces
+        try:
+            return codecs.lookup(encoding).name == "utf-8"
+        except LookupError:
+            return False
+
     def decode_raw_stream(self, text, decode_raw, known_encoding, filename):
         """given string/unicode or bytes/string, determine encoding
         from magic encoding comment, return body as unicode
@@ -199,7 +207,7 @@ class Lexer:
             text = text[len(codecs.BOM_UTF8) :]
             parsed_encoding = "utf-8"
             m = self._coding_re.match(text.decode("utf-8", "ignore"))
-            if m is not None and m.group(1) != "utf-8":
+            if m is not None and not self._names_utf8(m.group(1)):
                 raise exceptions.CompileException(
                     "Found utf-8 BOM in file, with conflicting "
                     "magic encoding comment of '%s'" % m.group(1),
